@@ -12,7 +12,7 @@
 //!   with Σ over the WHOLE database before / after the commit.
 //!   obs = class,gas_used,gas_refunded,cend,bend,sdburn,lateburn,wraps (or `rejected`): cend / bend are the
 //!   caller's / beneficiary's balances when the first frame has returned (Inspector, outermost `*_end`),
-//!   sdburn the values of the SELFDESTRUCT notifications with contract == target that were not reverted,
+//!   sdburn the `had_balance` of the `AccountDestroyed { address == target }` entries in the real journal at that moment,
 //!   lateburn the balance that accounts marked self-destructed still hold when the state is committed
 //!   (ether sent to an account after it self-destructed in the same transaction is deleted with it),
 //!   wraps the number of non-reverted SELFDESTRUCTs whose beneficiary credit `+=` wrapped around 2^256 (only
@@ -28,7 +28,7 @@ use revm::primitives::{
 use revm::{inspector_handle_register, Database, DatabaseCommit, Evm, EvmContext, Handler, Inspector, JournalEntry};
 
 // ------------------------------------------------------------------ big sums
-#[derive(Clone, Copy, PartialEq, Eq, Default)]
+#[derive(Clone, Copy, PartialEq, Eq, Default, Debug)]
 pub struct Big {
     hi: u64,
     lo: U256,
@@ -375,9 +375,12 @@ struct Obs {
     ded: Option<U256>,
     cend: U256,
     bend: U256,
-    /// per open frame: burns (Some(value)) and credit wraps (None) of completed SELFDESTRUCTs
-    frames: Vec<Vec<Option<U256>>>,
-    survived: Vec<Option<U256>>,
+    /// per open frame: number of completed SELFDESTRUCTs whose beneficiary credit wrapped
+    frames: Vec<u64>,
+    survived_wraps: u64,
+    /// Σ had_balance of the `AccountDestroyed { address == target }` entries in the journal when the last
+    /// frame ended (entries of reverted frames are gone by then): the `burnt` of Spec/Ether.lean
+    sdburn: Big,
     /// (contract, beneficiary, their balances) seen at the SELFDESTRUCT instruction about to execute
     pending_sd: Option<(Address, Address, U256, U256)>,
     // distribution
@@ -396,26 +399,36 @@ impl Obs {
         }
     }
     fn enter<DB: Database>(&mut self, ctx: &EvmContext<DB>) {
-        if self.depth == 0 {
+        if self.ded.is_none() {
             self.ded = Some(self.bal(ctx, self.caller));
         }
         self.depth += 1;
         self.max_depth = self.max_depth.max(self.depth);
-        self.frames.push(vec![]);
+        self.frames.push(0);
     }
     fn leave<DB: Database>(&mut self, ctx: &EvmContext<DB>, ok: bool) {
         self.depth = self.depth.saturating_sub(1);
-        let evs = self.frames.pop().unwrap_or_default();
+        let w = self.frames.pop().unwrap_or_default();
         if ok {
             match self.frames.last_mut() {
-                Some(p) => p.extend(evs),
-                None => self.survived.extend(evs),
+                Some(p) => *p += w,
+                None => self.survived_wraps += w,
             }
         }
-        if self.depth == 0 {
-            self.cend = self.bal(ctx, self.caller);
-            self.bend = self.bal(ctx, self.cb);
+        // the last `*_end` is the one of the first frame: every end overwrites, no nesting assumption needed
+        self.cend = self.bal(ctx, self.caller);
+        self.bend = self.bal(ctx, self.cb);
+        let mut b = Big::default();
+        for level in ctx.journaled_state.journal.iter() {
+            for e in level.iter() {
+                if let JournalEntry::AccountDestroyed { address, target, had_balance, .. } = e {
+                    if address == target {
+                        b.add(*had_balance);
+                    }
+                }
+            }
         }
+        self.sdburn = b;
     }
 }
 impl<DB: Database> Inspector<DB> for Obs {
@@ -460,17 +473,15 @@ impl<DB: Database> Inspector<DB> for Obs {
         o
     }
     fn selfdestruct(&mut self, contract: Address, target: Address, value: U256) {
+        let _ = value;
         if contract == target {
             self.sd_self += 1;
-            if let Some(f) = self.frames.last_mut() {
-                f.push(Some(value));
-            }
         } else {
             self.sd_other += 1;
             if let Some((c, t, bc, bt)) = self.pending_sd {
                 if c == contract && t == target && bt.checked_add(bc).is_none() {
                     if let Some(f) = self.frames.last_mut() {
-                        f.push(None);
+                        *f += 1;
                     }
                 }
             }
@@ -588,14 +599,8 @@ pub fn exec_tx(tx: &Tx) -> TxOut {
             let cpost = fin(&tx.caller);
             let bpost = fin(&tx.cb);
             let o = &evm.context.external;
-            let mut sd = Big::default();
-            let mut wraps = 0u64;
-            for v in &o.survived {
-                match v {
-                    Some(v) => sd.add(*v),
-                    None => wraps += 1,
-                }
-            }
+            let sd = o.sdburn;
+            let wraps = o.survived_wraps;
             let obs = format!("{},{:x},{:x},{},{},{},{},{:x}", class, gas_used, gas_refunded, hx(o.cend), hx(o.bend), sd.hex(), late.hex(), wraps);
             if wraps > 0 { stats.push("selfdestruct-credit-wrapped".into()); }
             let ded = o.ded.unwrap_or_default();
